@@ -25,20 +25,22 @@ type world struct {
 	classDefs   map[felt.Felt]core.ClassDefinition   // every class ever offered, by class hash
 	classPrint  map[string]felt.Felt                 // fingerprint of the RPC rendering -> class hash
 
-	revertedBlocks []felt.Felt                         // hashes of blocks no longer on the chain
-	revertedTxs    []felt.Felt                         // hashes of transactions no longer on the chain
-	revertedClass  []felt.Felt                         // classes declared only in reverted blocks (may be re-declared later)
-	everWritten    map[[2]felt.Felt]map[felt.Felt]bool // every non-zero value any block ever wrote to a slot
+	revertedBlocks []felt.Felt // hashes of blocks no longer on the chain
+	revertedTxs    []felt.Felt // hashes of transactions no longer on the chain
+	revertedClass  []felt.Felt // classes declared only in reverted blocks (may be re-declared later)
+	l1Sentinel     bool        // the recorded L1 head is the zero struct core.L1Head{} (number 0, nil hash, nil root)
 
 	ops []string // history, for the replay file
 
 	startVersion int // index of the protocol version of the first block
+
+	deployAndReplace int // number of (block, contract) pairs deployed and replaced by one diff
 }
 
 func newWorld(r *lib.RNG, srcNewState bool, opt lib.GenOptions) (*world, error) {
 	g := lib.NewChainGen(r, srcNewState, opt)
 	w := &world{g: g, commitments: map[felt.Felt]*core.BlockCommitments{}, classDefs: map[felt.Felt]core.ClassDefinition{},
-		classPrint: map[string]felt.Felt{}, everWritten: map[[2]felt.Felt]map[felt.Felt]bool{}}
+		classPrint: map[string]felt.Felt{}}
 	for _, ns := range []bool{false, true} {
 		bc, _ := lib.NewNode(g.Net, ns)
 		n, err := newRPCNode(bc, ns)
@@ -109,6 +111,18 @@ func (w *world) next() error {
 		redirect(diff.DeployedContracts)
 		redirect(diff.ReplacedClasses)
 	}
+	// a contract deployed AND replaced by the same diff (the shared generator never does that):
+	// the replacement is the class the block leaves behind
+	for _, a := range sortedKeys(diff.DeployedContracts) {
+		if r.Chance(1, 5) {
+			c := g.ClassHash(3)
+			if len(pool) > 0 && r.Bool() {
+				c = lib.Pick(r, pool)
+			}
+			diff.ReplacedClasses[a] = &c
+			w.deployAndReplace++
+		}
+	}
 	b, err := g.Next(&lib.BlockSpec{Version: version, Diff: diff, Classes: classes})
 	if err != nil {
 		return err
@@ -117,17 +131,6 @@ func (w *world) next() error {
 		w.commitments[*b.Block.Hash] = c
 	} else {
 		return fmt.Errorf("source commitments of block %d: %w", num, err)
-	}
-	for a, kv := range b.SU.StateDiff.StorageDiffs {
-		for k, v := range kv {
-			if !v.IsZero() {
-				p := [2]felt.Felt{a, k}
-				if w.everWritten[p] == nil {
-					w.everWritten[p] = map[felt.Felt]bool{}
-				}
-				w.everWritten[p][*v] = true
-			}
-		}
 	}
 	for h, def := range b.Classes {
 		w.classDefs[h] = def
@@ -172,7 +175,11 @@ func (w *world) revert() error {
 // (an L1 head ahead of the local chain).
 func (w *world) setL1(n uint64) error {
 	h := &core.L1Head{BlockNumber: n, BlockHash: lib.F(0xAA00 + n), StateRoot: lib.F(0xBB00 + n)}
-	if int(n) < w.height() {
+	if n > 0 && w.g.R.Chance(1, 4) {
+		// a head recorded without hash / root is still a recorded head when its number is not 0
+		h.BlockHash, h.StateRoot = nil, nil
+	}
+	if int(n) < w.height() && h.BlockHash != nil {
 		h.BlockHash = w.g.Bundles[n].Block.Hash
 		h.StateRoot = w.g.Bundles[n].Block.GlobalStateRoot
 	}
@@ -182,7 +189,24 @@ func (w *world) setL1(n uint64) error {
 		}
 	}
 	w.l1 = &n
+	w.l1Sentinel = false
 	w.ops = append(w.ops, fmt.Sprintf("l1 %d", n))
+	return nil
+}
+
+// setL1Zero records the zero struct core.L1Head{} (number 0, nil hash, nil root) as the L1 head:
+// per the statement an L1 head at block 0 is recorded; juno's finality rule takes the zero struct
+// for "no L1 head" while l1_accepted does resolve to block 0.
+func (w *world) setL1Zero() error {
+	for i, nd := range w.nodes {
+		if err := nd.bc.SetL1Head(&core.L1Head{}); err != nil {
+			return fmt.Errorf("node %d: SetL1Head: %w", i, err)
+		}
+	}
+	var zero uint64
+	w.l1 = &zero
+	w.l1Sentinel = true
+	w.ops = append(w.ops, "l1 zero-struct")
 	return nil
 }
 
